@@ -8,6 +8,8 @@ FKMNonlinearDetector/FKMNonlinearRecorder are compared with the model evaluated 
  (b) to 1e-12, with the real Binned(ExtendedNeuber) / Binned(SeegerBeste): the law's outputs are recorded per load and the model
      runs with these tables ("evaluated with the same law").
 Relations evaluated on the implementation alone on every run: mirror symmetry, multi-point = single point."""
+import time
+
 import common
 import hcm
 
@@ -100,6 +102,7 @@ def run(res):
                        'non-trivial = at least one closed hysteresis in pass 2 and at least one secondary-branch point (counted distinct by input)')
     common.standard_proof_stage(res, 'C05')
 
+    res.cov.setdefault('timing_s', []).append(round(time.time() - res.t0, 1))
     # ---------------- (a) single point, injected integer law: every column exactly
     seqs = uniq(gen_single(rng, quick))
     # multi-point cases and the single-point runs of their points
@@ -145,6 +148,7 @@ def run(res):
     for s in seqs[8:11] + seqs[-2:]:
         res.sample({'sequence': s, 'points': 1})
 
+    res.cov.setdefault('timing_s', []).append(round(time.time() - res.t0, 1))
     # ---------------- (c) several points: exact
     mouts = hcm.pmap(hcm._w_multi, [(s, [c / c0 for c in cs]) for s, c0, cs, _ in multi])
     mterms, mowner, n_order = [], [], 0
@@ -186,6 +190,7 @@ def run(res):
     res.cov['multi_vs_single_differences_predicted_by_model (order hypothesis of multipoint_is_pointwise not met)'] = n_order
     res.sample({'sequence': multi[0][0], 'ratios': [c / multi[0][1] for c in multi[0][2]]})
 
+    res.cov.setdefault('timing_s', []).append(round(time.time() - res.t0, 1))
     # ---------------- mirror relation on the implementation alone (injected law)
     pick = [s for s in seqs if len(s) <= 25]
     rng.shuffle(pick)
@@ -199,6 +204,7 @@ def run(res):
     res.add_cases(len(pick), 0)
     res.cov['mirror_pairs'] = len(pick)
 
+    res.cov.setdefault('timing_s', []).append(round(time.time() - res.t0, 1))
     # ---------------- (b) real binned laws: model with the recorded tables, 1e-12; mirror relation
     real = []
     for _ in range(90 if quick else 900):
@@ -237,6 +243,7 @@ def run(res):
     if real:
         res.sample({'sequence': real[0][0], 'law': real[0][1]})
 
+    res.cov.setdefault('timing_s', []).append(round(time.time() - res.t0, 1))
     # ---------------- E: known findings
     res.replay_known(still_fails)
 
